@@ -110,18 +110,64 @@ def permute_reactive(rng, desc, keep_inductors_sorted):
 
 VARY_FACTORS = [2.0, 0.5, 4.0, 0.25, 8.0, 1.5, 0.75, 3.0, 0.125, 6.0, 0.375, 16.0]
 
-def vary_values(rng, desc):
-    """the same description (ids, nodes, listing order, source values) with every R, L, C multiplied
-    by a distinct dyadic factor — what a process-level cache keyed without values would confuse"""
+def vary_values(rng, desc, kinds=('R', 'C', 'L')):
+    """the same description (ids, nodes, listing order, source values) with every element of the given
+    kinds multiplied by a distinct dyadic factor — what a process-level cache keyed without values would
+    confuse.  kinds=('C','L') leaves the w = 0 network (capacitors open, inductors shorted) untouched."""
     fs = list(VARY_FACTORS); rng.shuffle(fs)
     comps = []
     k = 0
     for c in desc['comps']:
         c = dict(c)
-        if c['kind'] in ('R', 'C', 'L'):
+        if c['kind'] in kinds:
             c['val'] = c['val'] * fs[k % len(fs)]; k += 1
         comps.append(c)
     return dict(desc, comps=comps)
+
+# --------------------------------------------------------------------------- SI-unit scales
+
+SI_DECADES = [-9, -6, -3, 0, 3, 6, 9]
+
+def scale_desc(desc, k: float, s: float):
+    """impedance level × k and time scale × s of the same circuit: R ↦ k·R, L ↦ k·s·L, C ↦ s·C/k
+    (every time constant is multiplied by s, every impedance by k; source values unchanged)"""
+    comps = []
+    for c in desc['comps']:
+        c = dict(c)
+        if c['kind'] == 'R': c['val'] = c['val'] * k
+        elif c['kind'] == 'L': c['val'] = c['val'] * k * s
+        elif c['kind'] == 'C': c['val'] = c['val'] * s / k
+        comps.append(c)
+    return dict(desc, comps=comps, si=dict(k=k, s=s))
+
+def si_desc(rng, desc, exact=True):
+    """an ordinary generated circuit in realistic SI units: exact decade scalings (impedance level and
+    time scale from SI_DECADES, kept inside R ∈ [1 mΩ, 1 GΩ], C ∈ [1 pF, 1 F], L ∈ [1 nH, 1 H] as far as
+    possible) or, exact=False, log-uniform levels with a per-element log-uniform jitter of ± one decade"""
+    for _ in range(60):
+        if exact:
+            k = 10.0 ** rng.choice(SI_DECADES); s = 10.0 ** rng.choice(SI_DECADES)
+            d = scale_desc(desc, k, s)
+        else:
+            k = 10.0 ** rng.uniform(-2, 8); s = 10.0 ** rng.uniform(-9, 0)
+            d = scale_desc(desc, k, s)
+            for c in d['comps']:
+                if c['kind'] in ('R', 'C', 'L'):
+                    c['val'] = float(f"{c['val'] * 10.0 ** rng.uniform(-1, 1):.3g}")
+        ok = True
+        for c in d['comps']:
+            lo, hi = {'R': (1e-3, 1e10), 'C': (1e-12, 1.0), 'L': (1e-9, 10.0)}.get(c['kind'], (None, None))
+            if lo is not None and not (lo <= c['val'] <= hi): ok = False
+        if ok: return d
+    return scale_desc(desc, 1e3, 1e-5)           # kΩ, µs … ms: always inside the ranges for dyadic base values
+
+def unit_scales(desc, exp):
+    """magnitudes by physical kind of a set of expected outputs: (voltage scale, current scale), each
+    floored by what the other implies through the largest / smallest resistance of the circuit"""
+    rs = [c['val'] for c in desc['comps'] if c['kind'] == 'R'] or [1.0]
+    sv = max([abs(v) for (kind, _), v in exp.items() if kind in ('pot', 'v')] + [0.0])
+    si = max([abs(v) for (kind, _), v in exp.items() if kind == 'i'] + [0.0])
+    return max(sv, si * min(rs)), max(si, sv / max(rs))
 
 def run_sequence(out, extra_canon, descs, check):
     """run `check` on the descriptions in order (same process) with the canon flag
@@ -165,7 +211,7 @@ def shape(desc):
     return (len(nodes), ks, f['names_interleave'], f['inductors_listed_alphabetically'])
 
 def pretty(desc):
-    return dict(ground=desc['ground'],
+    return dict(ground=desc['ground'], **({'si': desc['si']} if 'si' in desc else {}),
                 comps=[f"{c['kind']}:{c['id']}({c['n1']},{c['n2']})={c['val']}" for c in desc['comps']])
 
 def labels_of(desc):
